@@ -5,6 +5,7 @@ import ast
 from typing import List, Optional
 
 from .. import astutil as A
+from .. import norm as N
 from .. import cfg as C
 from ..core import Ctx
 from .c13 import isolated
@@ -330,8 +331,11 @@ def rule_routing(ctx: Ctx) -> None:
         if okk:
             kept = [A.call_name(c) or "" for c in A.func_calls(kal) if (A.call_name(c) or "").endswith(".keep_alive_listen_key")]
             same_acct = bool(kept) and kept[0].rsplit(".", 1)[0] == created[0].rsplit(".", 1)[0]
-            passes_key = bool(kept) and any("self._listen_key" in ast.unparse(c) for c in A.func_calls(kal)
-                                            if (A.call_name(c) or "").endswith(".keep_alive_listen_key"))
+            key_attr = next((A.dotted(s_.target) for s_ in A.stores(fn) if (A.dotted(s_.target) or "").startswith("self.")
+                             and hasattr(s_.node, "value") and "create_listen_key" in N.canon(N.expand(fn, s_.node.value))), None)
+            passes_key = bool(kept) and key_attr is not None and any(
+                N.canon(N.through_properties(ctx.repo, kal, N.expand(kal, a))) == key_attr
+                for c in A.func_calls(kal) if (A.call_name(c) or "").endswith(".keep_alive_listen_key") for a in c.args)
             nonnull = not any(isinstance(r, ast.Return) and (r.value is None or A.const_value(r.value) is None
                                                              and isinstance(r.value, ast.Constant))
                               for r in C.walk_shallow(kap.node))
